@@ -312,6 +312,66 @@ static void do_expand(int nh, int nc, int flags)
     xwrite(ctl_out, hdr, strlen(hdr));
 }
 
+/* ---- one TRACE request: apply the events one after another in a single child, report each step ---- */
+static void do_trace(int n, int flags)
+{
+    pid_t pid;
+    int st = 0, ii;
+    char tmp[32], hdr[128];
+    int err_m = memfd_create("vh_terr", 0), exit_m = memfd_create("vh_texit", 0);
+
+    pid = fork();
+    if (pid == 0) {
+        char fdname[16];
+        dup2(err_m, 2);
+        alarm((flags & F_LSAN) ? 40 : 20);
+        for (ii = 0; ii < n; ++ii) {
+            int out_m = memfd_create("vh_tout", 0), res_m = memfd_create("vh_tres", 0);
+            int rc, dis;
+            char line[96];
+            size_t outlen, reslen;
+            off_t split1;
+            dup2(out_m, 1);
+            if (evs[ii].kind == 'E') {
+                snprintf(hdr, sizeof(hdr), "R %d ok 0 0 0 0\n", ii);
+                xwrite(ctl_out, hdr, strlen(hdr));
+                snprintf(fdname, sizeof(fdname), "%d", exit_m);
+                setenv("VH_EXIT_FD", fdname, 1);
+                do_eof();
+                leave_to_main = 1;
+                return;
+            }
+            dis = apply_event(&evs[ii], &rc);
+            fflush(stdout);
+            split1 = lseek(1, 0, SEEK_CUR);
+            if (!dis && (flags & F_DUMP)) {
+                xwrite(res_m, "DUMP\n", 5);
+                dump_to_fd(res_m);
+            }
+            snprintf(line, sizeof(line), "RES %s %d %ld %ld %ld\n", dis ? "disabled" : "ok", rc, (long)split1, (long)split1, (long)split1);
+            xwrite(res_m, line, strlen(line));
+            outlen = fd_size(out_m); reslen = fd_size(res_m);
+            snprintf(hdr, sizeof(hdr), "R %d ok %zu %zu 0 0\n", ii, outlen, reslen);
+            xwrite(ctl_out, hdr, strlen(hdr));
+            send_blob_from_fd(out_m, 0, outlen);
+            send_blob_from_fd(res_m, 0, reslen);
+            close(out_m); close(res_m);
+        }
+        _exit(0);
+    }
+    while (waitpid(pid, &st, 0) < 0 && errno == EINTR) {}
+    {
+        size_t errlen = fd_size(err_m), exitlen = fd_size(exit_m);
+        snprintf(hdr, sizeof(hdr), "T %zu %zu\n", errlen, exitlen);
+        xwrite(ctl_out, hdr, strlen(hdr));
+        send_blob_from_fd(err_m, 0, errlen);
+        send_blob_from_fd(exit_m, 0, exitlen);
+    }
+    close(err_m); close(exit_m);
+    snprintf(hdr, sizeof(hdr), "END %s\n", status_of(st, tmp));
+    xwrite(ctl_out, hdr, strlen(hdr));
+}
+
 static int read_events(int n)
 {
     size_t used = 0;
@@ -367,6 +427,13 @@ static void vh_serve(evutil_socket_t fd, short what, void *arg)
         if (sscanf(line, "EXPAND %d %d %d", &nh, &nc, &flags) == 3) {
             if (read_events(nh + nc)) _exit(96);
             do_expand(nh, nc, flags);
+            if (leave_to_main)
+                return;
+            continue;
+        }
+        if (sscanf(line, "TRACE %d %d", &nh, &flags) == 2) {
+            if (read_events(nh)) _exit(96);
+            do_trace(nh, flags);
             if (leave_to_main)
                 return;
             continue;
